@@ -75,8 +75,12 @@ RowSelfConsistent(ev) == /\ Resolvable(RowComp(ev.rowComp), TRUE)
                          /\ FWithin(ev.rowMono, CompMass(RowComp(ev.rowComp), TRUE), Micro(50))
                          /\ (~ev.mono => /\ Resolvable(RowComp(ev.rowComp), FALSE) /\ ev.rowAvg # <<>>
                                           /\ FWithin(ev.rowAvg, CompMass(RowComp(ev.rowComp), FALSE), Micro(500)))
+(* XLMOD rows (average mode only): the table has no average masses, the library derives them from the entry's       *)
+(* formula - the very composition it reports - so the two calculators must agree (elements C,H,N,O,P,S and isotopes)  *)
+ReturnedCHNOPS(ev) == \A q \in 1..Len(ev.comp) : ev.comp[q].sym \in {"C", "H", "N", "O", "P", "S", "13C", "15N", "18O", "2H", "17O", "34S", "D", "e", "p", "n"}
 RowAgreeFails(ev) ==
-    IF ev.db = "psimod" /\ ~RowSelfConsistent(ev) THEN {}
+    IF ev.db = "xlmod" THEN (IF ev.mono \/ ev.out = "bothraise" \/ (ev.out = "ret" /\ ~ReturnedCHNOPS(ev)) THEN {} ELSE AgreeFails(ev))
+    ELSE IF ev.db = "psimod" /\ ~RowSelfConsistent(ev) THEN {}
     ELSE IF ~ev.mono /\ ~OnlyCHNOPS(ev.rowComp) THEN {}
     ELSE IF ev.out = "bothraise" THEN {}     \* resolution of the spelling is C10's business; both paths agree it fails
     ELSE AgreeFails(ev)
